@@ -108,7 +108,7 @@ class Folder:
             return bool(arm) and isinstance(arm[-1], ast.Raise)
         out = []
         for fn, test, parent, outs in seen.values():
-            if len(outs) == 2 or any(fr.endswith(i) for fr in fn.split(" > ") for i in ignore):
+            if len(outs) == 2 or any(fr.endswith(i) or fr.startswith("errors:") for fr in fn.split(" > ") for i in tuple(ignore) + ("\0",)):
                 continue
             if isinstance(parent, ast.If) and (refuses(parent.body) or refuses(parent.orelse)):
                 continue
@@ -215,7 +215,7 @@ class Folder:
             if e.id in ("True", "False", "None"):
                 return {"True": True, "False": False, "None": None}[e.id]
             if e.id in ("str", "int", "bool", "bytes", "list", "dict", "float", "set", "frozenset", "tuple", "len",
-                        "isinstance", "getattr", "all", "any", "super", "sorted", "hasattr"):
+                        "isinstance", "getattr", "all", "any", "super", "sorted", "hasattr", "next", "reversed", "min", "max", "sum", "enumerate", "zip"):
                 return ("builtin", e.id)
             return self.module_value(m, e.id)
         if isinstance(e, ast.Attribute):
@@ -502,10 +502,22 @@ class Folder:
             if name in ("str", "int", "bool", "bytes", "list", "dict", "float", "set", "frozenset", "tuple", "sorted"):
                 return {"str": str, "int": int, "bool": bool, "bytes": bytes, "list": list, "dict": dict, "float": float,
                         "set": set, "frozenset": frozenset, "tuple": tuple, "sorted": sorted}[name](*args)
+            if name == "next" and isinstance(args[0], (list, tuple)):  # a generator expression folds to the list of what it would yield
+                if args[0]:
+                    return args[0][0]
+                if len(args) > 1:
+                    return args[1]
+                raise FoldRaise(ExtVal("StopIteration", (), (), True))
+            if name in ("reversed", "enumerate", "zip") and all(isinstance(a, (list, tuple, dict, str)) for a in args):
+                return list({"reversed": reversed, "enumerate": enumerate, "zip": zip}[name](*args))
+            if name in ("min", "max", "sum") and all(isinstance(x, (int, float)) for a in args for x in (a if isinstance(a, (list, tuple)) else [a])):
+                return {"min": min, "max": max, "sum": sum}[name](*args)
             if name == "all":
                 return all(args[0])
             if name == "any":
                 return any(args[0])
+        except FoldRaise:
+            raise
         except Exception:
             return Unknown(name + " failed")
         return Unknown(name)
